@@ -95,6 +95,7 @@ type Obl struct {
 	Output  string
 	Checked []string // solvers that returned unsat (thorough cross-check)
 	NoPre   bool     // skip skolemisation/instantiation pre-processing
+	SliceDepth int   // >0: depth-limited slicing of the hypotheses (stage 0)
 	Expect  string   // "unsat" (default, goal must be valid) or "sat" (vacuity guards)
 }
 
@@ -308,6 +309,9 @@ func (s *State) heapGet(d *Decls, comp, sort string) string {
 		d.declare(t, fmt.Sprintf("(declare-const %s %s)", t, d.heapSorts[comp]))
 	}
 	s.heap[comp] = t
+	if c := d.closureFact(comp, t, s.alloc); c != "" {
+		s.define(c)
+	}
 	return t
 }
 
